@@ -25,7 +25,7 @@ Ops15 == IF Mode = "historyd" THEN OpsD ELSE IF Mode = "historydc" THEN OpsDCore
          \cup (IF Mode = "history" THEN {Op("EvalString", "illegal")} ELSE {})     \* fails inside a loop after some passes produced output
          \cup (IF Mode = "response" THEN {Op("Response", pg) : pg \in NotTemplates} ELSE {})
          \cup (IF Mode = "history" THEN {Op("String", "layouts/main"), Op("String", "/ok"), Op("Response", "layouts/../ok")} ELSE {})
-         \cup (IF Mode = "response" THEN {Op("Response", pg) : pg \in {"bad-in-component", "bad-in-layout", "bad-at-start", "bad-in-loop", "bad-in-slot", "bad-in-insert", "bad-in-array", "bad-in-args", "bad-in-object", "bad-in-for-cond", "bad-in-elseif", "bad-in-each-else", "bad-in-for-else", "bad-lt", "bad-in-assign", "bad-in-unused-arg", "bad-in-shadowed-arg"}} ELSE {})
+         \cup (IF Mode = "response" THEN {Op("Response", pg) : pg \in {"bad-in-component", "bad-in-layout", "bad-at-start", "bad-in-loop", "bad-in-slot", "bad-in-insert", "bad-in-array", "bad-in-args", "bad-in-object", "bad-in-for-cond", "bad-in-elseif", "bad-in-each-else", "bad-in-for-else", "bad-lt", "bad-in-assign", "bad-in-unused-arg", "bad-in-shadowed-arg", "bad-after-long"}} ELSE {})
          \cup (IF Mode = "history" THEN {Op("String", "setvar"), Op("String", "getvar"), Op("EvalString", "setvar"), Op("EvalString", "getvar"),
                                          Op("Response", "getvar")} ELSE {})
 Cfgs == IF Mode \in {"historyd", "historydc"} THEN {[dir |-> "t", ext |-> ".tw", errorPage |-> "", debug |-> FALSE]}
